@@ -288,13 +288,31 @@ def run_case(case, name):
             return True
 
     def wait_quiet():
-        t0 = time.time()
-        # ENDING is transient: the woken worker turns it into ENDED
-        while ((sim.run_state.name not in QUIET or sim.replication_state.name == "ENDING" or not worker_idle())
-               and time.time() - t0 < 2.5):
+        """Wait until the command is really over.  Give up when the run thread made no progress for
+        2.5 s (stuck / dead thread / lost wake-up; stop() on the run thread itself takes 1 s), when it
+        runs away (a replication of a generated program has a few hundred log entries), or after 40 s."""
+        def busy():
+            # ENDING is transient: the woken worker turns it into ENDED
+            return sim.run_state.name not in QUIET or sim.replication_state.name == "ENDING" or not worker_idle()
+        t0 = last_t = time.time()
+        last_n = len(rec["log"])
+        why = None
+        while busy():
+            now = time.time()
+            n = len(rec["log"])
+            if n != last_n:
+                last_n, last_t = n, now
+            if n > 80000:
+                why = "run does not terminate"
+            elif now - last_t > 2.5:
+                why = "no progress for 2.5 s"
+            elif now - t0 > 40:
+                why = "still running after 40 s"
+            if why:
+                break
             time.sleep(0.0005)
-        if sim.run_state.name not in QUIET or sim.replication_state.name == "ENDING":
-            rec["notes"].append("not quiescent after 2.5 s: " + sim.run_state.name + "/" + sim.replication_state.name)
+        if why and (sim.run_state.name not in QUIET or sim.replication_state.name == "ENDING"):
+            rec["notes"].append(f"not quiescent ({why}): " + sim.run_state.name + "/" + sim.replication_state.name)
             return False
         return True
 
